@@ -16,6 +16,7 @@ using SchedulerLock = std::unique_lock<std::recursive_mutex>;
 #include SNIP_K_FAILURE_WINDOW
 #include SNIP_K_LOCKOUT
 #include SNIP_K_THRESHOLD
+#include SNIP_AUTO
 // only reached with a non-empty endpoint, which the harness never sets: present for compilation only
 std::optional<std::pair<std::string, std::uint16_t>> parse_endpoint(const std::string&) { return std::nullopt; }
 }
@@ -241,4 +242,29 @@ extern "C" void h_c24_reannounce(unsigned long k, unsigned long seq) {
             if (limit) verif_assert(counter <= limit, "C24: no peer has more in-flight requests than the configured limit");
         }
     }
+}
+// the three lock-out operations must not change what the throttle decides: two nodes get the same admitted history; on one of
+// them a lock-out operation runs in between; the next announce must receive the same verdict on both (at any later time).
+extern "C" void h_c21_independence(unsigned long which_op) {
+    PartialNode pa, pb; Node* a = pa.node(); Node* b = pb.node();
+    const unsigned min_interval = nondet_u8("min_interval_s") & 63, burst = (nondet_u8("burst_limit") & 3), window = nondet_u8("window_s");
+    verif_assume(min_interval >= 1 && burst >= 1 && window >= min_interval);
+    for (Node* n : {a, b}) { n->config_.announce_min_interval = std::chrono::seconds(min_interval); n->config_.announce_burst_limit = burst; n->config_.announce_burst_window = std::chrono::seconds(window); }
+    long long now = 1000;
+    for (int i = 0; i < 2; ++i) {                    // a common prefix of announces (admitted or not, identically on both nodes)
+        now += nondet_u8("advance_s");
+        const bool ra = a->register_incoming_announce(peer_n(0), tp(now * kNs)), rb = b->register_incoming_announce(peer_n(0), tp(now * kNs));
+        verif_assert(ra == rb, "C21: the throttle is deterministic");
+    }
+    // node A additionally sees lock-out traffic for the same peer: failures (possibly ending in a lock-out), queries, a clear
+    for (int i = 0; i < 4; ++i) {
+        now += nondet_u8("advance_s");
+        if (which_op == 0) a->record_announce_failure(peer_n(0), tp(now * kNs));
+        else if (which_op == 1) { if (i < 3) a->record_announce_failure(peer_n(0), tp(now * kNs)); else (void)a->announce_sender_locked(peer_n(0), tp(now * kNs)); }
+        else { if (i < 3) a->record_announce_failure(peer_n(0), tp(now * kNs)); else a->clear_announce_failures(peer_n(0)); }
+    }
+    now += nondet_u8("advance_s");
+    const bool va = a->register_incoming_announce(peer_n(0), tp(now * kNs)), vb = b->register_incoming_announce(peer_n(0), tp(now * kNs));
+    verif_assert(va == vb, "C21: rejections, lock-outs and their expiry never let an announce through that the minimum interval / burst window forbid (nor block one they allow)");
+    verif_reach("compared");
 }
